@@ -453,6 +453,19 @@ def run(F, rep, tier):
                 else:
                     rep.viol('R15.6', '%s|%s|payload' % (p_, s_[2][4]), 'the value of a %s token is computed from %s rather than parsed from the literal text in one piece: the literal no longer denotes exactly (correctly rounded) what its digits spell' % (s_[2][4], sorted(str(o[:2]) for o in bad)), lb_.loc(bb))
     rep.floor('R15.6', 'float literal tokens built', n6, 2)
+    # the lexer sees the program text itself: core::parse hands its `code` parameter to lex unchanged (no replace / trim / case folding,
+    # which would also rewrite the inside of string, raw, bytes and format literals)
+    if F.has_fn('core::parse'):
+        pb_ = F.body('core::parse')
+        lx = [c for c in pb_.calls if c.target.rsplit('::', 1)[-1] == 'lex']
+        if lx:
+            og = origins(pb_, lx[0].args[0], passthru=('as_str', 'deref', 'as_ref', 'borrow'))
+            if og and all(o[0] == 'param' for o in og):
+                rep.ok('R15.4', 'parse -> lex', 'the source text reaches the lexer unchanged')
+            else:
+                rep.viol('R15.4', 'core::parse|source-rewritten', 'parse rewrites the source text before lexing (%s): the rewrite also applies inside literals, so a literal no longer denotes exactly the characters written in it' % sorted(str(o[:2]) for o in og), lx[0].loc())
+        else:
+            rep.note('R15.4: parse does not call lex directly (idiom not recognised)')
     # ---------------- R15.7
     rep.rule('R15.7', 'the digits of a literal are ASCII / radix digits: the lexer and the exact decimal parser never classify characters with '
              'char::is_numeric (Unicode Nd/Nl/No: superscripts, fractions, Arabic-Indic digits), which the BigInt / f64 parsers behind the '
